@@ -56,4 +56,74 @@ theorem zsmul_inv_cancel (k m : Int) (P : α) (h : k * m % o.n = 1 % o.n) :
   rw [← mul_zsmul, ← L.zsmul_mod, h, L.zsmul_mod, one_zsmul]
 
 end Lawful
+
+/-! ## the group part of `Lawful`, without `lift_x` (added additively: `Lawful` itself is unchanged)
+
+`LawfulGroup o G`: every field of `Lawful` except `liftX_some` / `liftX_none`.  A theorem that never calls
+`o.liftX` (ECDSA sign/verify/recover-free parts, ECDH, DLEQ, BIP32 arithmetic, Pedersen, …) can take
+`LG : LawfulGroup o G` instead of `L : Lawful o G`; the instance for btclib's arithmetic
+(`Btc.C01.lawfulGroup_ec`, `Proofs/C01/CapstoneLawful.lean`) then needs NO hypothesis `p % 4 = 3`, which `Lawful`'s
+instance uses for `lift_x` only.  Every `Lawful` is a `LawfulGroup` (`Lawful.toLawfulGroup`). -/
+structure LawfulGroup {α : Type} (o : GroupOps α) (G : Type) [AddCommGroup G] where
+  abs : α → G
+  n_pos : 0 < o.n
+  n_prime : Nat.Prime o.n.toNat
+  abs_zero : abs o.zero = 0
+  abs_add : ∀ P Q, abs (o.add P Q) = abs P + abs Q
+  abs_neg : ∀ P, abs (o.neg P) = - abs P
+  abs_mul : ∀ (m : Int) P, abs (o.mul m P) = m • abs P
+  order : ∀ P, o.n • abs P = 0
+  isZero_iff : ∀ P, o.isZero P = true ↔ abs P = 0
+  gen_ne_zero : abs o.gen ≠ 0
+  eq_iff : ∀ P Q, o.eq P Q = true ↔ abs P = abs Q
+  x_eq_iff : ∀ P Q, abs P ≠ 0 → abs Q ≠ 0 → (o.x P = o.x Q ↔ abs P = abs Q ∨ abs P = - abs Q)
+  x_range : ∀ P, abs P ≠ 0 → 0 ≤ o.x P ∧ o.x P < o.p
+  y_neg : ∀ P, abs P ≠ 0 → (o.y (o.neg P) % 2 = 0 ↔ ¬ (o.y P % 2 = 0))
+  x_neg : ∀ P, o.x (o.neg P) = o.x P
+  y_congr : ∀ P Q, abs P = abs Q → abs P ≠ 0 → (o.y P % 2 = 0 ↔ o.y Q % 2 = 0)
+
+/-- forget `lift_x` -/
+def Lawful.toLawfulGroup {α G : Type} [AddCommGroup G] {o : GroupOps α} (L : Lawful o G) : LawfulGroup o G where
+  abs := L.abs
+  n_pos := L.n_pos
+  n_prime := L.n_prime
+  abs_zero := L.abs_zero
+  abs_add := L.abs_add
+  abs_neg := L.abs_neg
+  abs_mul := L.abs_mul
+  order := L.order
+  isZero_iff := L.isZero_iff
+  gen_ne_zero := L.gen_ne_zero
+  eq_iff := L.eq_iff
+  x_eq_iff := L.x_eq_iff
+  x_range := L.x_range
+  y_neg := L.y_neg
+  x_neg := L.x_neg
+  y_congr := L.y_congr
+
+@[simp] theorem Lawful.toLawfulGroup_abs {α G : Type} [AddCommGroup G] {o : GroupOps α} (L : Lawful o G) :
+    L.toLawfulGroup.abs = L.abs := rfl
+
+namespace LawfulGroup
+variable {α G : Type} [AddCommGroup G] {o : GroupOps α} (L : LawfulGroup o G)
+
+theorem abs_sub (P Q : α) : L.abs (o.sub P Q) = L.abs P - L.abs Q := by
+  simp [GroupOps.sub, L.abs_add, L.abs_neg, sub_eq_add_neg]
+
+theorem abs_dmul (u v : Int) (H Q : α) :
+    L.abs (o.dmul u H v Q) = u • L.abs H + v • L.abs Q := by
+  simp [GroupOps.dmul, L.abs_add, L.abs_mul]
+
+/-- scalars only matter modulo `n` -/
+theorem zsmul_mod (m : Int) (P : α) : (m % o.n) • L.abs P = m • L.abs P := by
+  have h := Int.emod_add_mul_ediv m o.n
+  conv_rhs => rw [← h]
+  rw [add_zsmul, mul_comm, mul_zsmul, L.order, zsmul_zero, add_zero]
+
+/-- if `k·m ≡ 1 (mod n)` then `k • (m • P) = P` -/
+theorem zsmul_inv_cancel (k m : Int) (P : α) (h : k * m % o.n = 1 % o.n) :
+    k • (m • L.abs P) = L.abs P := by
+  rw [← mul_zsmul, ← L.zsmul_mod, h, L.zsmul_mod, one_zsmul]
+
+end LawfulGroup
 end Btc
